@@ -304,6 +304,15 @@ func c11Gen(t *rapid.T, maxN int) c11Case {
 		}
 		c.Lat = out
 	}
+	if n >= 10 && rapid.IntRange(0, 7).Draw(t, "thenzeros") == 0 {
+		// a run that is reported in between and then sees only latencies of exactly zero for the rest of its time
+		b := rapid.IntRange(1, n/2).Draw(t, "zerosfrom")
+		for i := b; i < n; i++ {
+			c.Lat[i] = 0
+		}
+		c.Closes = append(c.Closes, b)
+		c.Family += "+zeros"
+	}
 	if rapid.IntRange(0, 2).Draw(t, "periodic") == 0 {
 		k := rapid.IntRange(1, 4).Draw(t, "ncloses")
 		for i := 0; i < k; i++ {
